@@ -1,0 +1,146 @@
+//go:build verif
+
+// Contracts for package terminal (comment-only; read by /verif/govc).
+
+package terminal
+
+//@ import "fmt"
+//@ import "strconv"
+//@ import "strings"
+//@ import "time"
+//@ import "unicode/utf8"
+//@ import "github.com/opsidian/parsley/ast"
+//@ import "github.com/opsidian/parsley/data"
+//@ import "github.com/opsidian/parsley/parser"
+//@ import "github.com/opsidian/parsley/parsley"
+//@ import "github.com/opsidian/parsley/text"
+
+//@ props C08
+//@ kindprops frame=C07,C14 panic=C08 bounds=C08 assert=C08 nil=C08 overflow=C08
+
+//@ -- ------------------------------------------------------------ literal nodes
+//@ method (i *IntegerNode) Token() (x string) = "INTEGER"
+//@ method (i *IntegerNode) Schema() (x interface{}) = i.schema
+//@ method (i *IntegerNode) Value() (x interface{}) = i.value
+//@ method (i *IntegerNode) Pos() (x parsley.Pos) = i.pos
+//@ method (i *IntegerNode) ReaderPos() (x parsley.Pos) = i.readerPos
+//@ specmethod (i *IntegerNode) NodeOK() (x bool) = i != nil
+//@ specmethod (i *IntegerNode) ListSpare() (x int) = 0
+//@ specmethod (i *IntegerNode) ListArr() (x int) = 0
+//@ specmethod (i *IntegerNode) EndsWithin(lo parsley.Pos, hi parsley.Pos) (x bool) = lo <= i.readerPos && i.readerPos <= hi
+//@ func NewIntegerNode(schema interface{}, value int64, pos parsley.Pos, readerPos parsley.Pos) (n *IntegerNode)
+//@   ensures fresh(n) && n.schema == schema && n.value == value && n.pos == pos && n.readerPos == readerPos
+//@   assigns nothing
+
+//@ method (f *FloatNode) Token() (x string) = "FLOAT"
+//@ method (f *FloatNode) Schema() (x interface{}) = f.schema
+//@ method (f *FloatNode) Value() (x interface{}) = f.value
+//@ method (f *FloatNode) Pos() (x parsley.Pos) = f.pos
+//@ method (f *FloatNode) ReaderPos() (x parsley.Pos) = f.readerPos
+//@ specmethod (f *FloatNode) NodeOK() (x bool) = f != nil
+//@ specmethod (f *FloatNode) ListSpare() (x int) = 0
+//@ specmethod (f *FloatNode) ListArr() (x int) = 0
+//@ specmethod (f *FloatNode) EndsWithin(lo parsley.Pos, hi parsley.Pos) (x bool) = lo <= f.readerPos && f.readerPos <= hi
+//@ func NewFloatNode(schema interface{}, value float64, pos parsley.Pos, readerPos parsley.Pos) (n *FloatNode)
+//@   ensures fresh(n) && n.schema == schema && n.value == value && n.pos == pos && n.readerPos == readerPos
+//@   assigns nothing
+
+//@ method (s *StringNode) Token() (x string) = "STRING"
+//@ method (s *StringNode) Schema() (x interface{}) = s.schema
+//@ method (s *StringNode) Value() (x interface{}) = s.value
+//@ method (s *StringNode) Pos() (x parsley.Pos) = s.pos
+//@ method (s *StringNode) ReaderPos() (x parsley.Pos) = s.readerPos
+//@ specmethod (s *StringNode) NodeOK() (x bool) = s != nil
+//@ specmethod (s *StringNode) ListSpare() (x int) = 0
+//@ specmethod (s *StringNode) ListArr() (x int) = 0
+//@ specmethod (s *StringNode) EndsWithin(lo parsley.Pos, hi parsley.Pos) (x bool) = lo <= s.readerPos && s.readerPos <= hi
+//@ func NewStringNode(schema interface{}, value string, pos parsley.Pos, readerPos parsley.Pos) (n *StringNode)
+//@   ensures fresh(n) && n.schema == schema && n.value == value && n.pos == pos && n.readerPos == readerPos
+//@   assigns nothing
+
+//@ method (c *CharNode) Token() (x string) = "CHAR"
+//@ method (c *CharNode) Schema() (x interface{}) = c.schema
+//@ method (c *CharNode) Value() (x interface{}) = c.value
+//@ method (c *CharNode) Pos() (x parsley.Pos) = c.pos
+//@ method (c *CharNode) ReaderPos() (x parsley.Pos) = c.readerPos
+//@ specmethod (c *CharNode) NodeOK() (x bool) = c != nil
+//@ specmethod (c *CharNode) ListSpare() (x int) = 0
+//@ specmethod (c *CharNode) ListArr() (x int) = 0
+//@ specmethod (c *CharNode) EndsWithin(lo parsley.Pos, hi parsley.Pos) (x bool) = lo <= c.readerPos && c.readerPos <= hi
+//@ func NewCharNode(schema interface{}, value rune, pos parsley.Pos, readerPos parsley.Pos) (n *CharNode)
+//@   ensures fresh(n) && n.schema == schema && n.value == value && n.pos == pos && n.readerPos == readerPos
+//@   assigns nothing
+
+//@ method (b *BoolNode) Token() (x string) = "BOOL"
+//@ method (b *BoolNode) Schema() (x interface{}) = b.schema
+//@ method (b *BoolNode) Value() (x interface{}) = b.value
+//@ method (b *BoolNode) Pos() (x parsley.Pos) = b.pos
+//@ method (b *BoolNode) ReaderPos() (x parsley.Pos) = b.readerPos
+//@ specmethod (b *BoolNode) NodeOK() (x bool) = b != nil
+//@ specmethod (b *BoolNode) ListSpare() (x int) = 0
+//@ specmethod (b *BoolNode) ListArr() (x int) = 0
+//@ specmethod (b *BoolNode) EndsWithin(lo parsley.Pos, hi parsley.Pos) (x bool) = lo <= b.readerPos && b.readerPos <= hi
+//@ func NewBoolNode(schema interface{}, value bool, pos parsley.Pos, readerPos parsley.Pos) (n *BoolNode)
+//@   ensures fresh(n) && n.schema == schema && n.value == value && n.pos == pos && n.readerPos == readerPos
+//@   assigns nothing
+
+//@ method (n *NilNode) Token() (x string) = "NIL"
+//@ method (n *NilNode) Schema() (x interface{}) = n.schema
+//@ method (n *NilNode) Value() (x interface{}) = nil
+//@ method (n *NilNode) Pos() (x parsley.Pos) = n.pos
+//@ method (n *NilNode) ReaderPos() (x parsley.Pos) = n.readerPos
+//@ specmethod (n *NilNode) NodeOK() (x bool) = n != nil
+//@ specmethod (n *NilNode) ListSpare() (x int) = 0
+//@ specmethod (n *NilNode) ListArr() (x int) = 0
+//@ specmethod (n *NilNode) EndsWithin(lo parsley.Pos, hi parsley.Pos) (x bool) = lo <= n.readerPos && n.readerPos <= hi
+//@ func NewNilNode(schema interface{}, pos parsley.Pos, readerPos parsley.Pos) (n *NilNode)
+//@   ensures fresh(n) && n.schema == schema && n.pos == pos && n.readerPos == readerPos
+//@   assigns nothing
+
+//@ method (o *OpNode) Token() (x string) = o.value
+//@ method (o *OpNode) Schema() (x interface{}) = nil
+//@ method (o *OpNode) Value() (x interface{}) = o.value
+//@ method (o *OpNode) Pos() (x parsley.Pos) = o.pos
+//@ method (o *OpNode) ReaderPos() (x parsley.Pos) = o.readerPos
+//@ specmethod (o *OpNode) NodeOK() (x bool) = o != nil
+//@ specmethod (o *OpNode) ListSpare() (x int) = 0
+//@ specmethod (o *OpNode) ListArr() (x int) = 0
+//@ specmethod (o *OpNode) EndsWithin(lo parsley.Pos, hi parsley.Pos) (x bool) = lo <= o.readerPos && o.readerPos <= hi
+//@ func NewOpNode(value string, pos parsley.Pos, readerPos parsley.Pos) (n *OpNode)
+//@   ensures fresh(n) && n.value == value && n.pos == pos && n.readerPos == readerPos
+//@   assigns nothing
+
+//@ method (t *TimeDurationNode) Token() (x string) = "TIME_DURATION"
+//@ method (t *TimeDurationNode) Schema() (x interface{}) = t.schema
+//@ method (t *TimeDurationNode) Value() (x interface{}) = t.value
+//@ method (t *TimeDurationNode) Pos() (x parsley.Pos) = t.pos
+//@ method (t *TimeDurationNode) ReaderPos() (x parsley.Pos) = t.readerPos
+//@ specmethod (t *TimeDurationNode) NodeOK() (x bool) = t != nil
+//@ specmethod (t *TimeDurationNode) ListSpare() (x int) = 0
+//@ specmethod (t *TimeDurationNode) ListArr() (x int) = 0
+//@ specmethod (t *TimeDurationNode) EndsWithin(lo parsley.Pos, hi parsley.Pos) (x bool) = lo <= t.readerPos && t.readerPos <= hi
+//@ func NewTimeDurationNode(schema interface{}, value time.Duration, pos parsley.Pos, readerPos parsley.Pos) (n *TimeDurationNode)
+//@   ensures fresh(n) && n.schema == schema && n.value == value && n.pos == pos && n.readerPos == readerPos
+//@   assigns nothing
+
+//@ -- ------------------------------------------------------------------ parsers
+//@ -- every terminal: no node together with an error at a position inside [pos, EOF], or a node that starts at pos
+//@ -- (exactly one of the two), nothing curtailed; a failure raises the furthest-failure mark
+
+//@ closure Rune$1(ctx *parsley.Context, lrc data.IntMap, pos parsley.Pos) (n parsley.Node, cp data.IntSet, err parsley.Error)
+//@   captures (ch rune, notFoundErr parsley.NotFoundError)
+//@   requires 0 <= ch && ch <= 0x10FFFF
+//@   include  parsley.Parser.Parse
+//@   ensures  [total] (n == nil) != (err == nil) && len(data.ElemsOf(cp)) == 0
+//@   ensures  [node] n != nil ==> n.Pos() == pos && n.ReaderPos() > pos
+//@   ensures  [fail] err != nil ==> err.Pos() == pos
+//@   ghost_return when err != nil && err.Pos() > parsley.GhostMaxFail :: parsley.GhostMaxFail = err.Pos()
+
+//@ closure Op$1(ctx *parsley.Context, lrc data.IntMap, pos parsley.Pos) (n parsley.Node, cp data.IntSet, err parsley.Error)
+//@   captures (op string, notFoundErr parsley.NotFoundError)
+//@   requires op != ""
+//@   include  parsley.Parser.Parse
+//@   ensures  [total] (n == nil) != (err == nil) && len(data.ElemsOf(cp)) == 0
+//@   ensures  [node] n != nil ==> n.Pos() == pos && int(n.ReaderPos()) == int(pos) + len(op)
+//@   ensures  [fail] err != nil ==> err.Pos() == pos
+//@   ghost_return when err != nil && err.Pos() > parsley.GhostMaxFail :: parsley.GhostMaxFail = err.Pos()
